@@ -15,7 +15,7 @@ func init() {
 			r.Try(func() { ruleRecoverNeverRepanics(w, r, "R15.18") })
 			r.Rule("R15.22", 1, "a retry behaves like a first attempt: no in-place slice operation is applied to a slice its function did not build (the first Build compacts a shared dependency list, the second panics on the zeroed tail)")
 			r.Try(func() { ruleNoInPlaceOnShared(w, r, "R15.22") })
-			r.Rule("R15.23", 2, "a Build that fails leaves no partial state: the container starts no goroutine other than the context watchers (a build abandoned at its deadline finishes on its own and nobody owns what it constructed)")
+			r.Rule("R15.23", 1, "a Build that fails leaves no partial state: the container starts no goroutine other than the context watchers (a build abandoned at its deadline finishes on its own and nobody owns what it constructed)")
 			r.Try(func() { reexport(w, r, "R15.23", func(sub *Report) { checkGoStatements(w, sub) }, "R09.4") })
 			r.Rule("R15.21", 1, "no operation panics on an incomparable service instance: instances are never compared with == through the Disposable interface")
 			r.Try(func() { ruleNoInstanceEquality(w, r, "R15.21") })
